@@ -7,7 +7,7 @@ import (
 
 func getSliceProperty[TPropertyType any](value *any, targetType reflect.Type) (*TPropertyType, error) {
 	// Ensure the value is also a slice
-	if reflect.TypeOf(*value).Kind() != reflect.Slice {
+	if *value == nil || reflect.TypeOf(*value).Kind() != reflect.Slice {
 		return nil, fmt.Errorf("value %v cannot be converted to type %s", value, targetType.String())
 	}
 
@@ -23,7 +23,7 @@ func getSliceProperty[TPropertyType any](value *any, targetType reflect.Type) (*
 		sourceElemValue := reflect.ValueOf(sourceElem)
 
 		// Check if the source element can be converted to the target element type
-		if !sourceElemValue.Type().ConvertibleTo(targetElemType) {
+		if !sourceElemValue.IsValid() || !sourceElemValue.Type().ConvertibleTo(targetElemType) {
 			return nil, fmt.Errorf("element %v at index %d cannot be converted to type %s", sourceElem, i, targetElemType.String())
 		}
 
